@@ -222,16 +222,17 @@ def check_c08(res_obj, cits, out):
 # Abstract model of the alphabet letters (what each snippet was WRITTEN to be), independent of anything eyecite
 # computes from the objects (corrected_reporter, strip_punct, page flags ...). Used on alphabet sequences only.
 
-CASE_OF = {"FA": "A", "FA2": "A", "FA0": "A", "FB": "B", "FC": "C", "FH": "H"}  # full case letters -> case label
+CASE_OF = {"FA": "A", "FA2": "A", "FA0": "A", "FB": "B", "FC": "C", "FH": "H", "FO": "O"}  # full case letters -> case label
 IDENTITY_FULL = {"FP", "JP"}  # placeholder pages: every occurrence is its own resource
 OTHER_FULL = {"LAW": "LAW", "JRN": "JRN"}
-NAMES = {"A": {"Alpha", "Beta"}, "B": {"Gamma", "Delta"}, "C": {"Alpha", "Omega"}, "P": {"Sigma", "Tau"}, "H": {"Eta", "Theta"}}
+NAMES = {"A": {"Alpha", "Beta"}, "B": {"Gamma", "Delta"}, "C": {"Alpha", "Omega"}, "P": {"Sigma", "Tau"}, "H": {"Eta", "Theta"}, "O": {"O'Brien", "D'Arcy"}}
 NAMELESS = {"FA0"}  # cited without party names
-RV = {"A": ("U.S.", "10"), "B": ("U.S.", "10"), "C": ("F.2d", "30"), "P": ("U.S.", "585"), "H": ("Hill", "10")}
-PAGE = {"A": 100, "B": 200, "C": 300, "P": None, "H": 100, "LAW": "nopage", "JRN": 1, "JP": "placeholder-journal"}
+RV = {"A": ("U.S.", "10"), "B": ("U.S.", "10"), "C": ("F.2d", "30"), "P": ("U.S.", "585"), "H": ("Hill", "10"), "O": ("F.3d", "40")}
+PAGE = {"A": 100, "B": 200, "C": 300, "P": None, "H": 100, "O": 400, "LAW": "nopage", "JRN": 1, "JP": "placeholder-journal"}
 SHORT = {"S_A": ("U.S.", "10", "Beta"), "S_amb": ("U.S.", "10", None), "S_C": ("F.2d", "30", None), "S_for": ("F.3d", "77", None),
-         "S_Cr": ("Cranch", "10", None), "S_P": ("U.S.", "585", None)}
-SUPRA = {"SU_B": "Delta", "SU_amb": "Alpha", "SU_unk": "Zeta"}
+         "S_Cr": ("Cranch", "10", None), "S_P": ("U.S.", "585", None), "S_far": ("F.2d", "30", None)}
+SUPRA = {"SU_B": "Delta", "SU_amb": "Alpha", "SU_unk": "Zeta", "SU_O": "D'Arcy"}
+REFS = {"REF_B": "Gamma", "REF_O": "O'Brien"}
 IDPIN = {"ID": None, "ID_ok": 101, "ID_far": 999, "ID_bad": "bad"}
 
 
@@ -264,8 +265,8 @@ def abstract_resolution(seq):
         elif l in SUPRA:
             m = list(dict.fromkeys(r for r, c, _, lt in fulls if c and lt not in NAMELESS and SUPRA[l] in NAMES[c]))
             res = m[0] if len(m) == 1 else None
-        elif l == "REF_B":
-            m = list(dict.fromkeys(r for r, c, _, lt in fulls if c and lt not in NAMELESS and "Gamma" in NAMES[c]))
+        elif l in REFS:
+            m = list(dict.fromkeys(r for r, c, _, lt in fulls if c and lt not in NAMELESS and REFS[l] in NAMES[c]))
             res = m[0] if len(m) == 1 else None
         elif l in IDPIN:
             if last is not None:
